@@ -737,3 +737,29 @@ def leaf_field_name(t):
             t = t[1]
         else:
             return None
+
+
+class KeepOnly:
+    """Report proxy: forwards only obligations whose instance ends with one of `suffixes` (a property that borrows a
+    single clause of a shared rule); anchors and floors are always forwarded."""
+
+    def __init__(self, rep, suffixes, rid=None):
+        self._r, self._s, self._rid = rep, tuple(suffixes), rid
+
+    def _keep(self, instance):
+        return any(str(instance).endswith(s) for s in self._s)
+
+    def ob(self, rule, instance, ok, *a, **k):
+        return self._r.ob(self._rid or rule, instance, ok, *a, **k) if self._keep(instance) else True
+
+    def bad(self, rule, instance, *a, **k):
+        return self._r.bad(self._rid or rule, instance, *a, **k) if self._keep(instance) else False
+
+    def good(self, rule, instance, *a, **k):
+        return self._r.good(self._rid or rule, instance, *a, **k) if self._keep(instance) else True
+
+    def unknown(self, rule, instance, *a, **k):
+        return self._r.unknown(self._rid or rule, instance, *a, **k) if self._keep(instance) else False
+
+    def __getattr__(self, n):
+        return getattr(self._r, n)
